@@ -433,6 +433,96 @@ def check_file(job, acc: Acc):
         acc.sample({"units": repr(units), "endform": endform, "spacing": spacing, "text": text[:500]})
 
 
+# ---------------------------------------------------------------- same names
+# Fortran lets distinct entities of one file share a name: a generic interface named like a derived type (the
+# constructor idiom) or like one of its specific procedures, members of different modules, components of different
+# types.  Each must still be listed exactly once under its own container.  A program is a list of
+# (text, opens, closes): `opens`/`closes` name the entity (key) whose opening / END statement the line is.
+def _collision_programs():
+    P = {}
+    for order in ("type_first", "interface_first"):
+        ty = [("  type :: vec", ("vec#t", "vec", K_CLASS, "shapes"), None), ("    real :: x", None, None), ("  end type vec", None, "vec#t")]
+        gi = [("  interface vec", ("vec#i", "vec", K_INTERFACE, "shapes"), None), ("    module procedure vec_new", None, None),
+              ("  end interface vec", None, "vec#i")]
+        body = (ty + gi) if order == "type_first" else (gi + ty)
+        P["constructor_idiom:" + order] = (
+            [("module shapes", ("shapes", "shapes", K_MODULE, None), None), ("  implicit none", None, None)] + body +
+            [("contains", None, None), ("  function vec_new(a) result(v)", ("vec_new", "vec_new", K_FUNCTION, "shapes"), None),
+             ("    real, intent(in) :: a", None, None), ("    type(vec) :: v", None, None), ("    v%x = a", None, None),
+             ("  end function vec_new", None, "vec_new"), ("end module shapes", None, "shapes")],
+            [("x", K_VARIABLE, "vec", None)])
+    P["generic_named_like_specific"] = (
+        [("module gs", ("gs", "gs", K_MODULE, None), None), ("  implicit none", None, None),
+         ("  interface area", ("area#i", "area", K_INTERFACE, "gs"), None), ("    module procedure area", None, None),
+         ("  end interface area", None, "area#i"), ("contains", None, None),
+         ("  function area(r) result(a)", ("area#f", "area", K_FUNCTION, "gs"), None), ("    real, intent(in) :: r", None, None),
+         ("    real :: a", None, None), ("    a = r", None, None), ("  end function area", None, "area#f"), ("end module gs", None, "gs")], [])
+    two = []
+    for m in ("ma", "mb"):
+        two += [(f"module {m}", (m, m, K_MODULE, None), None), ("  implicit none", None, None),
+                ("  type :: item", (f"item@{m}", "item", K_CLASS, m), None), ("    integer :: val", None, None), ("  end type item", None, f"item@{m}"),
+                ("contains", None, None), ("  subroutine work(n)", (f"work@{m}", "work", K_FUNCTION, m), None), ("    integer :: n", None, None),
+                ("  end subroutine work", None, f"work@{m}"), (f"end module {m}", None, m)]
+    P["same_members_in_two_modules"] = (two, [])
+    P["same_component_in_two_types"] = (
+        [("module tc", ("tc", "tc", K_MODULE, None), None), ("  implicit none", None, None),
+         ("  type :: ta", ("ta", "ta", K_CLASS, "tc"), None), ("    integer :: val", None, None), ("  end type ta", None, "ta"),
+         ("  type :: tb", ("tb", "tb", K_CLASS, "tc"), None), ("    integer :: val", None, None), ("  end type tb", None, "tb"),
+         ("end module tc", None, "tc")], [("val", K_VARIABLE, "ta", 3), ("val", K_VARIABLE, "tb", 6)])
+    P["module_and_external_same_name"] = (
+        [("module ex", ("ex", "ex", K_MODULE, None), None), ("  implicit none", None, None), ("contains", None, None),
+         ("  subroutine run(n)", ("run@ex", "run", K_FUNCTION, "ex"), None), ("    integer :: n", None, None), ("  end subroutine run", None, "run@ex"),
+         ("end module ex", None, "ex"),
+         ("subroutine run_all(n)", ("run_all", "run_all", K_FUNCTION, None), None), ("  integer :: n", None, None),
+         ("contains", None, None), ("  subroutine run(k)", None, None), ("    integer :: k", None, None), ("  end subroutine run", None, None),
+         ("end subroutine run_all", None, "run_all")], [])
+    return P
+
+
+def collision_case(name, acc: Acc):
+    lines, members = _collision_programs()[name]
+    text = "\n".join(t for t, _, _ in lines) + "\n"
+    want = {}
+    for i, (_, op, cl) in enumerate(lines):
+        if op:
+            want[op[0]] = [op[1], op[2], op[3], i, None]
+        if cl:
+            want[cl][4] = i
+    sc = worker_scratch("c04")
+    sc.wipe()
+    root = os.path.realpath(sc.path)
+    path = os.path.join(root, "same.f90")
+    with open(path, "w") as f:
+        f.write(text)
+    s = Server([])
+    s.initialize(root)
+    syms = s.result("textDocument/documentSymbol", {"textDocument": Server.tdpp(path, 0, 0)["textDocument"]})
+    acc.case(nontrivial_key=("same_names", name), outcome=("same_names", name))
+    case = {"program": name, "text": text}
+    tags0 = {"family": "same_names", "program": name.split(":")[0]}
+    if not isinstance(syms, list):
+        acc.violation(Violation("same_names", {**tags0, "obs": "no_result"}, case, "a list", syms))
+        return
+    got = [(y["name"].lower(), y["kind"], (y.get("containerName") or "").lower() or None, y["location"]["range"]["start"]["line"],
+            y["location"]["range"]["end"]["line"]) for y in syms]
+    for key, (nm, kind, cont, sl, el) in want.items():
+        hits = [g for g in got if g[:3] == (nm, kind, cont)]
+        if len(hits) != 1:
+            acc.violation(Violation("same_names", {**tags0, "obs": f"listed_{len(hits)}_times", "entity": key.split("#")[0].split("@")[0]}, case,
+                                    (nm, kind, cont, sl, el), [g for g in got if g[0] == nm],
+                                    what=f"{name}: {nm} (kind {kind}, container {cont}) listed {len(hits)} times; entries of that name: {[g for g in got if g[0] == nm]}"))
+        elif hits[0][3:] != (sl, el):
+            acc.violation(Violation("same_names", {**tags0, "obs": "lines", "entity": key.split("#")[0].split("@")[0]}, case, (sl, el), hits[0][3:],
+                                    what=f"{name}: {nm} in {cont}: expected lines {(sl, el)}, got {hits[0][3:]}"))
+    for nm, kind, cont, ln in members:
+        hits = [g for g in got if g[:3] == (nm, kind, cont) and (ln is None or g[3] == ln)]
+        if len(hits) != 1:
+            acc.violation(Violation("same_names", {**tags0, "obs": "type_member", "entity": nm}, case, (nm, kind, cont, ln), [g for g in got if g[0] == nm],
+                                    what=f"{name}: member {nm} of {cont} listed {len(hits)} times"))
+    if len(acc.samples) < 1:
+        acc.sample({"program": name, "text": text})
+
+
 def _kinds(node):
     yield node[0]
     for c in node[1]:
@@ -468,10 +558,16 @@ def main(ctx):
                        "bodies, named constructs) are ignored"]
     acc = core.pmap(check_file, jobs(budget), chunk=16, budget_s=120, label="C04")
     ctx.add_family("outline+workspace_symbol", acc, node_budget=budget)
+    sacc = core.pmap(collision_case, sorted(_collision_programs()), chunk=1, budget_s=60, label="C04/same_names")
+    ctx.add_family("same_names", sacc, what="distinct entities of one file that legally share a name (constructor idiom, generic named "
+                   "like its specific, same members in two modules, same component in two types, module procedure and internal procedure)")
 
 
 def replay(rec):
     c = rec["case"]
     acc = Acc()
+    if rec["family"] == "same_names":
+        collision_case(c["program"], acc)
+        return [v.to_json("C04") for v in acc.violations] or None
     check_file((eval(c["units"]), c["endform"], c["spacing"]), acc)
     return [v.to_json("C04") for v in acc.violations] or None
